@@ -4,6 +4,7 @@ import (
 	"go/ast"
 	"go/token"
 	"go/types"
+	"strings"
 
 	"lachk/core"
 )
@@ -23,6 +24,12 @@ import (
 //
 // The statements may sit in the accessor or in helpers (setBytes/getBytes today); operands are read
 // back through parameter bindings, so neither extracting nor inlining a helper changes the verdict.
+// Table and cache may reach a helper as parameters or as fields of a grouping struct value built by a
+// composite literal (c05ResolveDeep projects the field out of the literal, also when a helper returns
+// it); the read-before-fill dominance is decided in the innermost activation containing both sites
+// (c05Meet), and the cached value is traced to the table read through conversions, &local, helper
+// results and callbacks bound to function literals (c05Origin). A cache fill whose receiver is not
+// certainly another cache of the index must be one of the fills checked in an accessor's view.
 func c05Who(c *core.Ctx) {
 	p := c.P
 	hbCache := vfIdx + ".cache.HighestBeforeSeq"
@@ -143,13 +150,22 @@ func c05Who(c *core.Ctx) {
 				ok, why = false, "the cache is filled under a key other than the id parameter"
 			case !c05MethodOnRootVar(kfr, kx, "Bytes", id):
 				ok, why = false, "the table is read under a key other than id.Bytes()"
-			case !r.Always():
-				ok, why = false, "a helper reads the table only on some of its paths"
 			default:
-				if d, _ := f.MustPassBefore([]core.Point{r.RootPt()}, a.RootPt()); !d {
-					ok, why = false, "the cache can be filled on a path that has not read the table"
-				} else if !c05HoldsResultOf(a, 1, r) {
-					ok, why = false, "the value cached is not the vector that was read from the table"
+				// the read dominates the fill in the innermost activation that contains both (the accessor
+				// itself, or a helper that holds the whole miss path), and the helpers between that
+				// activation and the read perform it on each of their returning paths
+				mf, aPt, rPt, rAlways := c05Meet(a, r)
+				switch {
+				case mf == nil:
+					ok, why = false, "the table read and the cache fill cannot be related"
+				case !rAlways:
+					ok, why = false, "a helper reads the table only on some of its paths"
+				default:
+					if d, _ := mf.MustPassBefore([]core.Point{rPt}, aPt); !d {
+						ok, why = false, "the cache can be filled on a path that has not read the table"
+					} else if _, oc := c05Origin(a.Fr, a.CS.Call.Args[1]); oc == nil || oc != r.CS.Call {
+						ok, why = false, "the value cached is not the vector that was read from the table"
+					}
 				}
 			}
 		}
@@ -162,8 +178,11 @@ func c05Who(c *core.Ctx) {
 		all := append([]*core.FuncInfo{g}, allLits(g)...)
 		for _, h := range all {
 			for _, cs := range h.CallsTo("utils/simplewlru.Cache.Add") {
+				// a fill of a vector cache, or of a cache the function received from elsewhere (a parameter, a
+				// field of a grouping struct): only a receiver that is certainly another cache of the index
+				// (the pair cache) is none of this clause's business
 				cf := fieldNameOf(h, cs.Recv())
-				if cf != hbCache && cf != laCache {
+				if cf != hbCache && cf != laCache && strings.HasPrefix(cf, vfIdx+".cache.") {
 					continue
 				}
 				n++
@@ -261,4 +280,42 @@ func c05PrivateHelper(p *core.Prog, h *core.FuncInfo, allowed map[*ast.CallExpr]
 		})
 	}
 	return ok, why
+}
+
+// c05Meet relates two sites of one inlined view: the innermost activation that contains both (compared
+// by function and entering call), the points of that activation's function at which a resp. r happen
+// (the site itself or the call towards it), and whether every helper between that activation and r
+// passes r on each of its returning paths. nil when the sites have no common activation.
+func c05Meet(a, r c05Site) (mf *core.FuncInfo, aPt, rPt core.Point, rAlways bool) {
+	chain := func(s c05Site) []*c05Frame {
+		var out []*c05Frame
+		for fr := s.Fr; fr != nil; fr = fr.Up {
+			out = append([]*c05Frame{fr}, out...)
+		}
+		return out
+	}
+	ca, cr := chain(a), chain(r)
+	if len(ca) == 0 || len(cr) == 0 || ca[0].F != cr[0].F {
+		return nil, aPt, rPt, false
+	}
+	k := 0
+	for k+1 < len(ca) && k+1 < len(cr) && ca[k+1].F == cr[k+1].F && ca[k+1].At.Call == cr[k+1].At.Call {
+		k++
+	}
+	at := func(c []*c05Frame, s c05Site) core.Point {
+		if k+1 < len(c) {
+			return c[k+1].At.Pt
+		}
+		return s.CS.Pt
+	}
+	aPt, rPt = at(ca, a), at(cr, r)
+	rAlways = true
+	pt := r.CS.Pt
+	for i := len(cr) - 1; i > k; i-- {
+		if _, skip := (core.PathQuery{F: cr[i].F, From: cr[i].F.Entry(), Avoid: core.PointSet(pt), TargetExit: true}).Find(); skip {
+			rAlways = false
+		}
+		pt = cr[i].At.Pt
+	}
+	return ca[k].F, aPt, rPt, rAlways
 }
